@@ -202,3 +202,124 @@ def replay(prop, payload):
         raise ToolError("replay file has no case")
     summ, _, _ = drive_and_validate([case], "runner_replay")
     return summ[case["id"]]
+
+
+# ---------------------------------------------------------------------------
+# C20: tracing integration (one process per driven run: the subscriber is global)
+# ---------------------------------------------------------------------------
+
+NTRACING = {"quick": 48, "thorough": 600}
+
+
+def tracing_cases(n):
+    import random
+    rng = random.Random(seed() * 7919 + 20)
+    cases = []
+    i = 0
+    while len(cases) < n:
+        i += 1
+        c = gen_cases.gen_case(rng, f"t{i}", rng.choice(["mixed", "retry", "limits", "serial"]))
+        if not c["expect"]["scen"]:
+            continue
+        c["cfg"]["tracing"] = True
+        c["cfg"]["logs_pre"] = rng.choice([0, 1, 2])
+        c["cfg"]["logs_post"] = rng.choice([0, 1, 2, 3])
+        pts = ["step"]
+        if c["cfg"]["before"] and rng.random() < 0.7:
+            pts.append("before")
+        # logs inside the after hook hit the known finding F7: keep them in a third of the cases
+        if c["cfg"]["after"] and i % 3 == 0:
+            pts.append("after")
+        c["cfg"]["log_points"] = pts
+        c["pipelines"] = []
+        # no real-time delays needed here
+        cases.append(c)
+    return cases
+
+
+def _one_tracing_run(args):
+    k, case = args
+    cin = os.path.join(WORK, "tracing", f"case_{k}.ndjson")
+    tout = os.path.join(WORK, "tracing", f"trace_{k}.ndjson")
+    write_ndjson(cin, [case])
+    r = subprocess.run([HARNESS_BIN, "drive", cin, tout], stdout=subprocess.PIPE,
+                       stderr=subprocess.PIPE, text=True, timeout=600)
+    if r.returncode != 0:
+        raise ToolError(f"harness drive (tracing) failed rc={r.returncode}: {r.stderr[-1500:]}")
+    return tout
+
+
+def check_c20(tier):
+    t0 = time.time()
+    cached = cache_get("tracing", tier)
+    if cached:
+        res = cached
+    else:
+        import engine_runner_mc
+        mc = engine_runner_mc.model_check_tracing(tier)
+        build_harness()
+        os.makedirs(os.path.join(WORK, "tracing"), exist_ok=True)
+        cases = tracing_cases(NTRACING[tier])
+        with ThreadPoolExecutor(max_workers=8) as ex:
+            outs = list(ex.map(_one_tracing_run, enumerate(cases)))
+        allp = os.path.join(WORK, "tracing_all.ndjson")
+        with open(allp, "w") as f:
+            for p in outs:
+                f.write(open(p).read())
+        nrec = sum(1 for _ in open(allp))
+        t = tlc("Trace_Runner.tla", os.path.join(SPEC, "Trace_Runner.cfg"), workers=1,
+                env={"TRACE": allp}, timeout=3600, tag="tracing", xss=True, heap="4g")
+        require_ok(t, "Trace_Runner (tracing runs)")
+        summ = {s["case"]: s for s in tlc_lines(t["out"], "CASE")}
+        if len(summ) != len(cases):
+            raise ToolError(f"Trace_Runner judged {len(summ)} of {len(cases)} tracing runs")
+        nlogs = 0
+        for line in open(allp):
+            if '"cb":"log"' in line:
+                nlogs += 1
+        viols = []
+        for c in cases:
+            for v in summ[c["id"]]["viol"]:
+                viols.append({"case": c["id"], "prop": v[0], "rule": v[1], "seq": v[2]})
+        bad_ids = {v["case"] for v in viols}
+        res = {"mc": mc, "ncases": len(cases), "nrecords": nrec, "nlogs": nlogs, "viols": viols,
+               "nontrivial": sum(1 for c in cases if (c["cfg"]["logs_pre"] + c["cfg"]["logs_post"]) > 0
+                                 and len(c["expect"]["scen"]) >= 2),
+               "bad_cases": [c for c in cases if c["id"] in bad_ids][:100],
+               "sample": cases[1]}
+        cache_put("tracing", tier, res)
+    bad = {c["id"]: c for c in res["bad_cases"]}
+    violations = []
+    other = collections.Counter()
+    for v in res["viols"]:
+        if v["prop"] != "C20":
+            other[(v["prop"], v["rule"])] += 1
+            continue
+        violations.append({"sig": f"C20:{v['rule']}",
+                           "what": f"{v['rule']} (tracing run {v['case']}, record seq {v['seq']})",
+                           "replay": {"property": "C20", "rule": v["rule"], "seq": v["seq"],
+                                      "case": bad.get(v["case"])}})
+    mc = res["mc"]
+    sc = res["sample"]
+    cov = {
+        "states": sum(m["states"] for m in mc["configs"]),
+        "distinct_states": sum(m["distinct"] for m in mc["configs"]),
+        "transitions": sum(m["states"] for m in mc["configs"]),
+        "mc_configs": mc["configs"], "asis": mc.get("asis", []), "exhaustive": True,
+        "checker_cmd": "tlc MC_Runner.tla (Tracing instances) ; harness drive (one process per run, "
+                       "Cucumber::init_tracing) ; tlc -workers 1 Trace_Runner.tla",
+        "traces_validated_against_impl": res["ncases"], "trace_records": res["nrecords"],
+        "log_events_emitted": res["nlogs"],
+        "violations_of_other_properties_seen_in_tracing_runs": {f"{k[0]}:{k[1]}": n for k, n in other.items()},
+        "evaluations": res["ncases"], "distinct_nontrivial": res["nontrivial"],
+        "rule": "seeded cases (distinct by construction), each run in its own process with the tracing "
+                "integration on; non-trivial if callbacks emit at least one log and >= 2 scenarios exist "
+                "(logs of different scenarios can be confused)",
+        "samples": [{"case_id": sc["id"], "cfg": sc["cfg"], "features": sc["features"],
+                     "schedule": sc["schedule"]}],
+    }
+    return {"level": "model_checking", "coverage": cov, "violations": violations,
+            "assumptions": ["one driven run per process (global subscriber); completion order controlled by gates",
+                            "log messages carry (scenario, attempt, callback, index); the formatted text is searched for that token",
+                            "the model flushes the log channel at every executor poll (biased select + drain loop of execute())"],
+            "wall_s": time.time() - t0}
